@@ -8,10 +8,10 @@ SPEC = dict(
            74: "remote_device_set_up_twice", 75: "completed_without_trust", 76: "spine_datagrams_not_exactly_once_in_order",
            77: "completed_after_user_cancel_in_hello_phase", 78: "error_state_with_transport_open", 79: "completed_although_the_stored_ship_id_differs"},
     rule="shipdrv -prop pair: a real client-role and a real server-role ship.ShipConnection joined by two FIFO queues owned "
-         "by the harness, which is the scheduler. 15 directed configurations first (among them the recorded finding), then "
-         "random configurations (paired/auto/allow/approves/cancels x stored-id unknown/right/wrong per side) with a random "
+         "by the harness, which is the scheduler. 17 directed configurations first (among them the recorded finding, prolongation rounds, user actions while a trusting server waits in ready-listen, devices whose SHIP id contains the word 'datagram'), then "
+         "random configurations (paired/auto/allow/approves/cancels x stored-id unknown/right/wrong per side; the ids themselves are arbitrary strings, a wrong stored id is another id or the right one in another letter case or with a blank appended) with a random "
          "schedule of the labels of Pair.v: deliver the oldest frame in either direction, approve, cancel, timer expiry on "
-         "either side (only when nothing else can happen and the user has acted - and, in the directed patient runs and a third of the random ones, up to three expiries of the pending server's timer before the user acts: prolongation rounds), a real 1.25 s wait for the time.After "
+         "either side (only when nothing else can happen and the user has acted - and, in the directed patient runs and a third of the random ones, up to three expiries of the pending server's timer before the user acts: prolongation rounds; in a quarter of the random runs racing expiries as in PairArb.v), a real 1.25 s wait for the time.After "
          "goroutines; a CloseDataConnection travels behind the frames in flight and arrives as ReportConnectionError. "
          "After every label both sides' state, closed flag, timer flag, setup count, Complete seen, SHIP id reported and the "
          "content of both queues (frame kinds decoded from the real bytes) are compared with the model. "
